@@ -190,3 +190,449 @@ Qed.
 
 Lemma mem_nonempty tau l : mem tau l = true -> l <> [].
 Proof. destruct l; [discriminate|discriminate]. Qed.
+
+(** * 3. time_slice (C06) *)
+Definition sliceL (g : graph) (a b : Z) : list ((Z * Z) * list (Z * Z)) :=
+  map (fun pr => (fst pr, filter_map (clip a b) (snd pr))) (flat_interactions g).
+Definition sliceF (g : graph) (a b : Z) (p : Z * Z) : list (Z * Z) :=
+  filter_map (clip a b) (timeline_of g (fst p) (snd p)).
+
+Lemma sliceL_eq g a b : sliceL g a b = map (fun p => (p, sliceF g a b p)) (epairs g).
+Proof. unfold sliceL. rewrite flat_epairs, map_map. reflexivity. Qed.
+
+Lemma time_slice_eq g a b : a <= b -> time_slice g a (Some b) =
+  match add_all_runs (empty_graph (g_dir g) true) (sliceL g a b) with
+  | (h, Done) => (Some (copy_attrs g h), Done)
+  | (h, o) => (None, o)
+  end.
+Proof. intros H. unfold time_slice. destruct (b <? a) eqn:E; [lia|]. reflexivity. Qed.
+
+Lemma sliceF_mem g a b u v tau : Good g -> a <= b ->
+  mem tau (sliceF g a b (u, v)) = (a <=? tau) && (tau <=? b) && has_interaction g u v (Some tau).
+Proof.
+  intros HG Hab. unfold sliceF. simpl. rewrite clip_list_mem by (auto using good_cc).
+  rewrite good_hi by assumption. reflexivity.
+Qed.
+
+Lemma sliceF_cc g a b p : Good g -> a <= b -> canon_chrono (sliceF g a b p).
+Proof. intros HG Hab. unfold sliceF. apply clip_list_canon; [assumption|]. apply good_cc. assumption. Qed.
+
+Lemma slice_core g a b : Good g -> a <= b ->
+  exists h, add_all_runs (empty_graph (g_dir g) true) (sliceL g a b) = (h, Done) /\
+    g_dir h = g_dir g /\ g_rem h = true /\
+    (forall k, ocanon (aget peqb k (g_edges h))) /\
+    (forall u v tau, omem tau (aget peqb (nk (g_dir g) u v) (g_edges h)) =
+                     (a <=? tau) && (tau <=? b) && has_interaction g u v (Some tau)) /\
+    InvAdj h /\
+    (forall n, In n (node_ids h) <->
+       exists v tau, a <= tau <= b /\
+         (has_interaction g n v (Some tau) = true \/ has_interaction g v n (Some tau) = true)).
+Proof.
+  intros HG Hab. pose proof HG as (Hr & Hc & HI).
+  destruct (add_all_runs_fresh (sliceL g a b) (empty_graph (g_dir g) true))
+    as (h & Hall & Hd & Hrem & Hcan & Hmem).
+  - reflexivity.
+  - rewrite sliceL_eq, map_map. exact (epairs_NoDup g HI).
+  - intros e He. rewrite sliceL_eq in He. apply in_map_iff in He. destruct He as (p & <- & Hp). simpl.
+    apply canon_chrono_sorted. apply sliceF_cc; assumption.
+  - intros e _. reflexivity.
+  - exists h. split; [exact Hall|]. split; [exact Hd|]. split; [exact Hrem|].
+    split; [|split; [|split]].
+    + intros k. apply Hcan. exact I.
+    + intros u v tau. rewrite Hmem.
+      change (g_dir (empty_graph (g_dir g) true)) with (g_dir g).
+      change (omem tau (aget peqb (nk (g_dir g) u v) (g_edges (empty_graph (g_dir g) true)))) with false.
+      rewrite sliceL_eq. rewrite (epairs_lookup g (sliceF g a b) u v tau HI).
+      * rewrite sliceF_mem by assumption.
+        destruct (has_interaction g u v (Some tau)) eqn:Hh.
+        -- rewrite (hi_some_none _ _ _ _ Hh). reflexivity.
+        -- rewrite !andb_false_r. reflexivity.
+      * intros p q E. unfold sliceF. rewrite (timeline_key g _ _ _ _ E). reflexivity.
+    + eapply InvAdj_add_all; [apply InvAdj_init|exact Hall].
+    + intros n. rewrite (add_all_nodes _ _ _ Hall n). split.
+      * intros [[]|(e & He & Hne & Hn)]. rewrite sliceL_eq in He. apply in_map_iff in He.
+        destruct He as ([x y] & <- & Hp). simpl in Hne, Hn.
+        destruct (nonempty_mem _ Hne) as (tau & Ht).
+        { apply cc_nonempty. apply sliceF_cc; assumption. }
+        rewrite sliceF_mem in Ht by assumption.
+        apply andb_true_iff in Ht. destruct Ht as (Hw & Hh).
+        destruct Hn as [-> | ->]; [exists y, tau|exists x, tau]; (split; [lia|auto]).
+      * intros (v & tau & Hw & Hh). right.
+        assert (Hex : exists p, In p (epairs g) /\ has_interaction g (fst p) (snd p) (Some tau) = true /\
+                                (n = fst p \/ n = snd p)).
+        { destruct Hh as [Hh|Hh];
+            destruct (epairs_complete g _ _ HI (hi_some_none _ _ _ _ Hh)) as [Hin|(Hd0 & Hin)].
+          - exists (n, v). simpl. auto.
+          - exists (v, n). simpl. split; [assumption|]. split; [|auto].
+            rewrite has_interaction_sym; assumption.
+          - exists (v, n). simpl. auto.
+          - exists (n, v). simpl. split; [assumption|]. split; [|auto].
+            rewrite has_interaction_sym; assumption. }
+        destruct Hex as ([x y] & Hp & Hhp & Hn). exists ((x, y), sliceF g a b (x, y)).
+        split; [rewrite sliceL_eq; apply in_map_iff; exists (x, y); auto|].
+        split; [|exact Hn]. simpl. apply (mem_nonempty tau).
+        rewrite sliceF_mem by assumption. simpl in Hhp. rewrite Hhp. lia.
+Qed.
+
+Lemma slice_inv g a b H : Good g -> a <= b -> time_slice g a (Some b) = (Some H, Done) ->
+  exists h, H = copy_attrs g h /\
+    g_dir h = g_dir g /\ g_rem h = true /\
+    (forall k, ocanon (aget peqb k (g_edges h))) /\
+    (forall u v tau, omem tau (aget peqb (nk (g_dir g) u v) (g_edges h)) =
+                     (a <=? tau) && (tau <=? b) && has_interaction g u v (Some tau)) /\
+    InvAdj h /\
+    (forall n, In n (node_ids h) <->
+       exists v tau, a <= tau <= b /\
+         (has_interaction g n v (Some tau) = true \/ has_interaction g v n (Some tau) = true)).
+Proof.
+  intros HG Hab E. destruct (slice_core g a b HG Hab) as (h & Hall & Hrest).
+  rewrite time_slice_eq, Hall in E by assumption. inversion E; subst. exists h. split; [reflexivity|exact Hrest].
+Qed.
+
+Theorem slice_invalid g a b : b < a -> time_slice g a (Some b) = (None, EValue).
+Proof. intros H. unfold time_slice. destruct (b <? a) eqn:E; [reflexivity|lia]. Qed.
+
+Theorem slice_default g a : time_slice g a None = time_slice g a (Some a).
+Proof. reflexivity. Qed.
+
+Theorem slice_ok g a b : Good g -> a <= b -> exists H, time_slice g a (Some b) = (Some H, Done).
+Proof.
+  intros HG Hab. destruct (slice_core g a b HG Hab) as (h & Hall & _).
+  rewrite time_slice_eq, Hall by assumption. eexists. reflexivity.
+Qed.
+
+Theorem slice_presence g a b H u v tau : Good g -> a <= b -> time_slice g a (Some b) = (Some H, Done) ->
+  g_dir H = g_dir g /\ g_rem H = true /\
+  has_interaction H u v (Some tau) = (a <=? tau) && (tau <=? b) && has_interaction g u v (Some tau).
+Proof.
+  intros HG Hab E. destruct (slice_inv g a b H HG Hab E) as (h & -> & Hd & Hr & Hc & Hm & _).
+  split; [exact Hd|]. split; [exact Hr|].
+  rewrite hi_omem; [|exact Hr|apply Hc].
+  change (g_edges (copy_attrs g h)) with (g_edges h). change (g_dir (copy_attrs g h)) with (g_dir h).
+  rewrite Hd. apply Hm.
+Qed.
+
+Lemma copy_attrs_ids g h : node_ids (copy_attrs g h) = node_ids h.
+Proof. unfold node_ids, copy_attrs. simpl. rewrite map_map. reflexivity. Qed.
+
+(** the slice is again a good graph, so slices compose at the level of presence *)
+Theorem slice_good g a b H : Good g -> a <= b -> time_slice g a (Some b) = (Some H, Done) -> Good H.
+Proof.
+  intros HG Hab E. destruct (slice_inv g a b H HG Hab E) as (h & -> & Hd & Hr & Hc & _ & HI & _).
+  split; [exact Hr|]. split; [exact Hc|].
+  destruct HI as (H1 & H2 & H3 & H4). unfold InvAdj. rewrite copy_attrs_ids.
+  repeat split; auto; apply H3 in H; tauto.
+Qed.
+
+Corollary slice_compose g a b c d H1 H2 H3 u v tau : Good g -> a <= b -> c <= d -> Z.max a c <= Z.min b d ->
+  time_slice g a (Some b) = (Some H1, Done) -> time_slice H1 c (Some d) = (Some H2, Done) ->
+  time_slice g (Z.max a c) (Some (Z.min b d)) = (Some H3, Done) ->
+  has_interaction H2 u v (Some tau) = has_interaction H3 u v (Some tau).
+Proof.
+  intros HG Hab Hcd Hm E1 E2 E3.
+  destruct (slice_presence g a b H1 u v tau HG Hab E1) as (_ & _ & P1).
+  pose proof (slice_good g a b H1 HG Hab E1) as HG1.
+  destruct (slice_presence H1 c d H2 u v tau HG1 Hcd E2) as (_ & _ & P2).
+  destruct (slice_presence g _ _ H3 u v tau HG Hm E3) as (_ & _ & P3).
+  rewrite P2, P1, P3. destruct (has_interaction g u v (Some tau)); lia.
+Qed.
+
+Lemma aget_map_attr (F : Z -> Z) n (l : list (Z * Z)) :
+  aget Z.eqb n (map (fun na => (fst na, F (fst na))) l) = if amem Z.eqb n l then Some (F n) else None.
+Proof.
+  unfold amem. induction l as [|[k x] r IH]; simpl; [reflexivity|].
+  destruct (n =? k) eqn:E; [|exact IH]. assert (n = k) by lia. subst. reflexivity.
+Qed.
+
+(** nodes of the slice: exactly the endpoints of the pairs present somewhere in the window, with the
+    source's attributes *)
+Theorem slice_nodes g a b H n : Good g -> a <= b -> time_slice g a (Some b) = (Some H, Done) ->
+  (In n (node_ids H) <-> exists v tau, a <= tau <= b /\ (has_interaction g n v (Some tau) = true \/ has_interaction g v n (Some tau) = true)) /\
+  (forall x, aget Z.eqb n (g_nodes H) = Some x -> aget Z.eqb n (g_nodes g) = Some x).
+Proof.
+  intros HG Hab E. destruct (slice_inv g a b H HG Hab E) as (h & -> & _ & _ & _ & _ & _ & Hn).
+  split; [rewrite copy_attrs_ids; apply Hn|].
+  intros x Hx. unfold copy_attrs in Hx. simpl in Hx.
+  rewrite (aget_map_attr (fun i => match aget Z.eqb i (g_nodes g) with Some a0 => a0 | None => 0 end)) in Hx.
+  destruct (amem Z.eqb n (g_nodes h)) eqn:Em; [|discriminate].
+  apply zamem_In in Em. apply (Hn n) in Em. destruct Em as (v & tau & _ & Hh).
+  assert (Hin : In n (node_ids g)).
+  { destruct HG as (_ & _ & HI). destruct Hh as [Hh|Hh]; apply (has_interaction_nodes _ _ _ _ HI) in Hh; tauto. }
+  apply zamem_In in Hin. unfold amem in Hin.
+  destruct (aget Z.eqb n (g_nodes g)) as [y|]; [|discriminate]. exact Hx.
+Qed.
+
+(** * 4. to_directed (C16) *)
+Definition h0_of (dir : bool) (g : graph) : graph :=
+  with_nodes (empty_graph dir true) (map (fun na => (fst na, 0)) (g_nodes g)).
+
+Lemma epairs_NoDup_raw g : InvAdj g -> NoDup (epairs g).
+Proof.
+  intros HI. unfold epairs. destruct (g_dir g).
+  - apply out_interactions_NoDup; assumption.
+  - apply interactions_NoDup; assumption.
+Qed.
+
+Lemma flat_sorted g e : Good g -> In e (flat_interactions g) ->
+  starts_sorted (snd e) /\ (forall r, In r (snd e) -> fst r <= snd r).
+Proof.
+  intros HG He. rewrite flat_epairs in He. apply in_map_iff in He. destruct He as (p & <- & _). simpl.
+  apply canon_chrono_sorted. apply good_cc. assumption.
+Qed.
+
+Lemma directed_core g : Good g -> g_dir g = false ->
+  exists h, add_all_runs (h0_of true g) (flat_interactions g) = (h, Done) /\
+    g_dir h = true /\ g_rem h = true /\
+    (forall k, ocanon (aget peqb k (g_edges h))) /\
+    (forall u v tau, omem tau (aget peqb (u, v) (g_edges h)) =
+       match find (fun p => peqb p (u, v)) (epairs g) with
+       | Some _ => has_interaction g u v (Some tau)
+       | None => false
+       end).
+Proof.
+  intros HG Hdir. pose proof HG as (Hr & Hc & HI).
+  destruct (add_all_runs_fresh (flat_interactions g) (h0_of true g))
+    as (h & Hall & Hd & Hrem & Hcan & Hmem).
+  - reflexivity.
+  - rewrite flat_epairs, map_map.
+    rewrite (map_ext _ (fun p => p)) by (intros [x y]; reflexivity). rewrite map_id.
+    apply epairs_NoDup_raw. assumption.
+  - intros e He. apply (flat_sorted g); assumption.
+  - intros e _. reflexivity.
+  - exists h. split; [exact Hall|]. split; [exact Hd|]. split; [exact Hrem|]. split.
+    + intros k. apply Hcan. exact I.
+    + intros u v tau. rewrite Hmem.
+      change (omem tau (aget peqb (u, v) (g_edges (h0_of true g)))) with false.
+      rewrite flat_epairs.
+      rewrite (find_map _ (fun p => peqb p (u, v))) by (intros [x y]; reflexivity).
+      destruct (find (fun p => peqb p (u, v)) (epairs g)) as [p|] eqn:Hf; simpl; [|reflexivity].
+      apply find_some in Hf. destruct Hf as (_ & Hk). apply peqb_eq in Hk. subst p. simpl.
+      symmetry. apply good_hi. assumption.
+Qed.
+
+Theorem directed_ok g : Good g -> g_dir g = false -> exists H, to_directed g = (Some H, Done).
+Proof.
+  intros HG Hd. destruct (directed_core g HG Hd) as (h & Hall & _).
+  unfold to_directed. fold (h0_of true g). rewrite Hall. eexists. reflexivity.
+Qed.
+
+Lemma find_in_some (l : list (Z * Z)) p : In p l -> find (fun q => peqb q p) l <> None.
+Proof.
+  intros Hin Hf. apply (find_none _ _ Hf) in Hin. simpl in Hin. rewrite peqb_refl in Hin. discriminate.
+Qed.
+
+Theorem directed_presence_partial g H u v tau : Good g -> g_dir g = false -> to_directed g = (Some H, Done) ->
+  g_dir H = true /\ g_nodes H = g_nodes g /\ g_attr H = g_attr g /\
+  (has_interaction H u v (Some tau) = true -> has_interaction g u v (Some tau) = true) /\
+  (has_interaction g u v (Some tau) = true -> has_interaction H u v (Some tau) = true \/ has_interaction H v u (Some tau) = true).
+Proof.
+  intros HG Hdir E. destruct (directed_core g HG Hdir) as (h & Hall & Hd & Hr & Hc & Hm).
+  unfold to_directed in E. fold (h0_of true g) in E. rewrite Hall in E. inversion E; subst H. clear E.
+  assert (Hhi : forall x y, has_interaction (with_all_nodes h g) x y (Some tau) =
+                            omem tau (aget peqb (x, y) (g_edges h))).
+  { intros x y. rewrite hi_omem; [|exact Hr|apply Hc].
+    change (g_dir (with_all_nodes h g)) with (g_dir h). rewrite Hd. reflexivity. }
+  split; [exact Hd|]. split; [reflexivity|]. split; [reflexivity|]. split.
+  - rewrite Hhi, Hm. destruct (find _ (epairs g)); [auto|discriminate].
+  - intros Hg. destruct HG as (_ & _ & HI).
+    destruct (epairs_complete g u v HI (hi_some_none _ _ _ _ Hg)) as [Hin|(_ & Hin)].
+    + left. rewrite Hhi, Hm. pose proof (find_in_some _ _ Hin) as Hf.
+      destruct (find _ (epairs g)); [assumption|congruence].
+    + right. rewrite Hhi, Hm. pose proof (find_in_some _ _ Hin) as Hf.
+      destruct (find _ (epairs g)); [|congruence]. rewrite has_interaction_sym; assumption.
+Qed.
+
+(** * 5. to_undirected, non-reciprocal (C16) *)
+Definition nkk (k : Z * Z) : Z * Z := nk false (fst k) (snd k).
+Definition KD {V} (acc : list ((Z * Z) * V)) : Prop := NoDup (map nkk (akeys acc)).
+Definition lookS (acc : list ((Z * Z) * list (Z * Z))) (k : Z * Z) (tau : Z) : bool :=
+  match find (fun e => peqb (nkk (fst e)) k) acc with Some e => mem tau (snd e) | None => false end.
+Definition NE (l : list ((Z * Z) * list (Z * Z))) : Prop :=
+  forall e, In e l -> forall r, In r (snd e) -> fst r <= snd r.
+
+Lemma mem_app tau l1 l2 : mem tau (l1 ++ l2) = mem tau l1 || mem tau l2.
+Proof. unfold mem. apply existsb_app. Qed.
+
+Lemma find_KD {V} (acc : list ((Z * Z) * V)) k e : KD acc -> In e acc -> nkk (fst e) = k ->
+  find (fun e => peqb (nkk (fst e)) k) acc = Some e.
+Proof.
+  unfold KD. induction acc as [|x rest IH]; simpl; intros Hnd Hin Hk; [destruct Hin|].
+  inversion Hnd as [|? ? Hni Hr]; subst.
+  destruct Hin as [->|Hin]; [rewrite peqb_refl; reflexivity|].
+  destruct (peqb (nkk (fst x)) (nkk (fst e))) eqn:E; [|apply IH; auto].
+  apply peqb_eq in E. exfalso. apply Hni. rewrite E. apply in_map. unfold akeys. apply in_map. assumption.
+Qed.
+
+Lemma find_aset_other {V} k0 k (new : V) acc : peqb (nkk k0) k = false ->
+  find (fun e => peqb (nkk (fst e)) k) (aset peqb k0 new acc) = find (fun e => peqb (nkk (fst e)) k) acc.
+Proof.
+  intros H. induction acc as [|[k' v'] rest IH]; simpl.
+  - rewrite H. reflexivity.
+  - destruct (peqb k0 k') eqn:E; simpl.
+    + apply peqb_eq in E. subst k'. rewrite H. reflexivity.
+    + rewrite IH. reflexivity.
+Qed.
+
+Lemma aset_absent {V} k0 (new : V) acc : aget peqb k0 acc = None -> aset peqb k0 new acc = acc ++ [(k0, new)].
+Proof.
+  induction acc as [|[k' v'] rest IH]; simpl; [reflexivity|].
+  destruct (peqb k0 k'); [discriminate|]. intros H. rewrite IH by assumption. reflexivity.
+Qed.
+
+Lemma aset_In {V} k0 (new : V) acc : In (k0, new) (aset peqb k0 new acc).
+Proof.
+  induction acc as [|[k' v'] rest IH]; simpl; [auto|].
+  destruct (peqb k0 k') eqn:E; simpl; [|auto]. apply peqb_eq in E. subst. auto.
+Qed.
+
+Lemma aset_In_inv {V} k0 (new : V) acc e : In e (aset peqb k0 new acc) -> In e acc \/ snd e = new.
+Proof.
+  induction acc as [|[k' v'] rest IH]; simpl.
+  - intros [<-|[]]. auto.
+  - destruct (peqb k0 k'); simpl.
+    + intros [<-|H]; auto.
+    + intros [<-|H]; auto. destruct (IH H); auto.
+Qed.
+
+(** one step of collect_spans *)
+Lemma collect_step acc k0 runs :
+  KD acc -> (aget peqb k0 acc = None -> ~ In (nkk k0) (map nkk (akeys acc))) ->
+  let old := match aget peqb k0 acc with Some x => x | None => [] end in
+  let acc' := aset peqb k0 (old ++ runs) acc in
+  KD acc' /\ forall k tau, lookS acc' k tau = lookS acc k tau || (peqb (nkk k0) k && mem tau runs).
+Proof.
+  intros HK Hfresh old acc'.
+  assert (HK' : KD acc').
+  { unfold acc', KD. destruct (aget peqb k0 acc) as [x|] eqn:Hg.
+    - rewrite akeys_aset_in by congruence. exact HK.
+    - rewrite aset_absent by assumption. unfold akeys. rewrite map_app, map_app. simpl.
+      apply NoDup_snoc; [exact HK|]. apply Hfresh. reflexivity. }
+  split; [exact HK'|]. intros k tau. unfold lookS.
+  destruct (peqb (nkk k0) k) eqn:E.
+  - apply peqb_eq in E. subst k.
+    rewrite (find_KD acc' (nkk k0) (k0, old ++ runs) HK' (aset_In _ _ _) eq_refl). simpl.
+    rewrite mem_app. f_equal. unfold old. destruct (aget peqb k0 acc) as [x|] eqn:Hg.
+    + rewrite (find_KD acc (nkk k0) (k0, x) HK (aget_Some_in _ _ _ Hg) eq_refl). reflexivity.
+    + rewrite (find_key_none (fun e : (Z * Z) * list (Z * Z) => nkk (fst e)) (nkk k0) acc); [reflexivity|].
+      specialize (Hfresh eq_refl). unfold akeys in Hfresh. rewrite map_map in Hfresh. exact Hfresh.
+  - unfold acc'. rewrite find_aset_other by assumption. rewrite orb_false_r. reflexivity.
+Qed.
+
+Lemma collect_inv l : forall acc, KD acc ->
+  KD (collect_spans l acc) /\
+  forall k tau, lookS (collect_spans l acc) k tau =
+    lookS acc k tau || existsb (fun e => peqb (nkk (fst e)) k && mem tau (snd e)) l.
+Proof.
+  induction l as [|[[u v] runs] rest IH]; intros acc HK; cbn [collect_spans].
+  - split; [exact HK|]. intros k tau. simpl. rewrite orb_false_r. reflexivity.
+  - set (k0 := if amem peqb (v, u) acc then (v, u) else (u, v)).
+    assert (Hk0 : nkk k0 = nk false u v).
+    { unfold k0. destruct (amem peqb (v, u) acc); unfold nkk; simpl; [apply nk_sym|reflexivity]. }
+    destruct (collect_step acc k0 runs HK) as (HK' & Hl).
+    { intros Hnone Hin. apply in_map_iff in Hin. destruct Hin as ([x y] & Hxy & Hin).
+      rewrite Hk0 in Hxy. unfold nkk in Hxy. simpl in Hxy.
+      unfold k0 in Hnone. unfold amem in Hnone.
+      destruct (aget peqb (v, u) acc) eqn:Hvu; simpl in Hnone; [congruence|].
+      apply nk_false_inj in Hxy. destruct Hxy as [Hxy|Hxy]; inversion Hxy; subst.
+      - apply aget_None_notin in Hnone. contradiction.
+      - apply aget_None_notin in Hvu. contradiction. }
+    destruct (IH _ HK') as (HK'' & Hl'). split; [exact HK''|].
+    intros k tau. rewrite Hl', Hl. simpl. rewrite Hk0. unfold nkk at 3. simpl. rewrite orb_assoc. reflexivity.
+Qed.
+
+Lemma collect_ne l : forall acc, NE acc -> NE l -> NE (collect_spans l acc).
+Proof.
+  induction l as [|[[u v] runs] rest IH]; intros acc Ha Hl; cbn [collect_spans]; [exact Ha|].
+  apply IH; [|intros e He; apply Hl; right; assumption].
+  set (k0 := if amem peqb (v, u) acc then (v, u) else (u, v)).
+  intros e He r Hr. apply aset_In_inv in He. destruct He as [He|He]; [apply (Ha e He r Hr)|].
+  rewrite He in Hr. apply in_app_or in Hr. destruct Hr as [Hr|Hr].
+  - destruct (aget peqb k0 acc) as [x|] eqn:Hg; [|destruct Hr].
+    apply aget_Some_in in Hg. apply (Ha _ Hg r Hr).
+  - apply (Hl ((u, v), runs) (or_introl eq_refl) r Hr).
+Qed.
+
+Lemma flat_NE g : Good g -> NE (flat_interactions g).
+Proof. intros HG e He. apply (flat_sorted g e HG He). Qed.
+
+(** the union over the enumerated directed pairs with the given unordered key *)
+Lemma flat_union g u v tau : Good g -> g_dir g = true ->
+  existsb (fun e => peqb (nkk (fst e)) (nk false u v) && mem tau (snd e)) (flat_interactions g)
+  = has_interaction g u v (Some tau) || has_interaction g v u (Some tau).
+Proof.
+  intros HG Hdir. pose proof HG as (_ & _ & HI). apply eq_iff_eq_true.
+  rewrite existsb_exists, orb_true_iff. split.
+  - intros (e & He & Hp). rewrite flat_epairs in He. apply in_map_iff in He.
+    destruct He as ([x y] & <- & Hin). simpl in Hp. apply andb_true_iff in Hp. destruct Hp as (Hk & Hm).
+    apply peqb_eq in Hk. unfold nkk in Hk. simpl in Hk. rewrite <- good_hi in Hm by assumption.
+    apply nk_false_inj in Hk. destruct Hk as [Hk|Hk]; inversion Hk; subst; auto.
+  - assert (Hone : forall x y, has_interaction g x y (Some tau) = true -> nk false x y = nk false u v ->
+              exists e, In e (flat_interactions g) /\
+                        peqb (nkk (fst e)) (nk false u v) && mem tau (snd e) = true).
+    { intros x y Hh Hk. exists ((x, y), timeline_of g x y). split.
+      - rewrite flat_epairs. apply in_map_iff. exists (x, y). split; [reflexivity|].
+        unfold epairs. rewrite Hdir. apply out_interactions_spec; [assumption|].
+        eapply hi_some_none; eassumption.
+      - cbn [fst snd]. unfold nkk. cbn [fst snd]. rewrite Hk, peqb_refl. rewrite <- good_hi by assumption. rewrite Hh. reflexivity. }
+    intros [Hh|Hh]; [apply (Hone u v Hh eq_refl)|apply (Hone v u Hh (nk_sym v u))].
+Qed.
+
+Lemma undirected_core g : Good g -> g_dir g = true ->
+  exists h, add_all_runs (h0_of false g)
+              (map (fun kr => (fst kr, sort_runs (snd kr))) (collect_spans (flat_interactions g) [])) = (h, Done) /\
+    g_dir h = false /\ g_rem h = true /\
+    (forall k, ocanon (aget peqb k (g_edges h))) /\
+    (forall u v tau, omem tau (aget peqb (nk false u v) (g_edges h)) =
+       has_interaction g u v (Some tau) || has_interaction g v u (Some tau)).
+Proof.
+  intros HG Hdir.
+  set (R := collect_spans (flat_interactions g) []).
+  assert (HK0 : KD (@nil ((Z * Z) * list (Z * Z)))) by constructor.
+  destruct (collect_inv (flat_interactions g) [] HK0) as (HKR & HlR). fold R in HKR, HlR.
+  assert (HNE : NE R).
+  { apply collect_ne; [intros e []|apply flat_NE; assumption]. }
+  destruct (add_all_runs_fresh (map (fun kr => (fst kr, sort_runs (snd kr))) R) (h0_of false g))
+    as (h & Hall & Hd & Hrem & Hcan & Hmem).
+  - reflexivity.
+  - rewrite map_map. unfold KD, akeys in HKR. rewrite map_map in HKR. exact HKR.
+  - intros e He. apply in_map_iff in He. destruct He as (kr & <- & Hkr). simpl.
+    split; [apply sort_runs_sorted|]. intros r Hr.
+    apply (Permutation_in _ (sort_runs_perm (snd kr))) in Hr. apply (HNE kr Hkr r Hr).
+  - intros e _. reflexivity.
+  - exists h. split; [exact Hall|]. split; [exact Hd|]. split; [exact Hrem|]. split.
+    + intros k. apply Hcan. exact I.
+    + intros u v tau. rewrite Hmem.
+      change (omem tau (aget peqb (nk false u v) (g_edges (h0_of false g)))) with false.
+      rewrite (find_map _ (fun e : (Z * Z) * list (Z * Z) => peqb (nkk (fst e)) (nk false u v)))
+        by (intros [[x y] rr]; reflexivity).
+      transitivity (lookS R (nk false u v) tau).
+      * unfold lookS. destruct (find _ R) as [e|]; simpl; [|reflexivity].
+        apply mem_perm. apply sort_runs_perm.
+      * rewrite HlR. unfold lookS at 1. simpl. apply flat_union; assumption.
+Qed.
+
+Theorem undirected_ok g : Good g -> g_dir g = true -> exists H, to_undirected g false = (Some H, Done).
+Proof.
+  intros HG Hd. destruct (undirected_core g HG Hd) as (h & Hall & _).
+  unfold to_undirected. fold (h0_of false g). rewrite Hall. eexists. reflexivity.
+Qed.
+
+Theorem undirected_presence g H u v tau : Good g -> g_dir g = true -> to_undirected g false = (Some H, Done) ->
+  g_dir H = false /\ g_nodes H = g_nodes g /\ g_attr H = g_attr g /\
+  has_interaction H u v (Some tau) = has_interaction g u v (Some tau) || has_interaction g v u (Some tau).
+Proof.
+  intros HG Hdir E. destruct (undirected_core g HG Hdir) as (h & Hall & Hd & Hr & Hc & Hm).
+  unfold to_undirected in E. fold (h0_of false g) in E. rewrite Hall in E. inversion E; subst H. clear E.
+  split; [exact Hd|]. split; [reflexivity|]. split; [reflexivity|].
+  rewrite hi_omem; [|exact Hr|apply Hc].
+  change (g_dir (with_all_nodes h g)) with (g_dir h). change (g_edges (with_all_nodes h g)) with (g_edges h).
+  rewrite Hd. apply Hm.
+Qed.
+
+(** * 6. every graph reachable from the empty removal-enabled graph is good (the theorems are not vacuous) *)
+Lemma Good_reach dir cs : Good (run_calls (G0 dir) cs).
+Proof.
+  destruct (reach_flags dir cs) as (_ & Hr). split; [exact Hr|]. split.
+  - intros k. apply (Inv_reach dir cs k).
+  - apply InvAdj_run. apply InvAdj_init.
+Qed.
